@@ -142,8 +142,21 @@ func (a ArgumentConditions) Validate() []string {
 		if condition.Argument < 0 || condition.Argument > 5 {
 			problems = append(problems, fmt.Sprintf("argument must be between 0 and 5 (inclusive), but is %v", condition.Argument))
 		}
+		if !isKnownOperation(condition.Operation) {
+			problems = append(problems, fmt.Sprintf("invalid operation: %v", condition.Operation))
+		}
 	}
 	return problems
+}
+
+// isKnownOperation returns true if the operation is one of Operations.
+func isKnownOperation(o Operation) bool {
+	for _, known := range Operations {
+		if o == known {
+			return true
+		}
+	}
+	return false
 }
 
 type NameWithConditions struct {
